@@ -3,6 +3,7 @@ package gen
 
 import (
 	"fmt"
+	"google.golang.org/protobuf/proto"
 	"math/rand"
 	"sort"
 	"strings"
@@ -217,7 +218,84 @@ func Model(r *rand.Rand, opt ModelOpt) *openfgav1.AuthorizationModel {
 			td.Metadata.Relations[relNames[pi]] = &openfgav1.RelationMetadata{}
 		}
 	}
+	handBuilt(r, m)
 	return m
+}
+
+// handBuilt gives a share of the models two traits of models assembled in Go code rather than decoded from JSON or
+// DSL: (a) a direct assignment written as the bare oneof wrapper, without the (empty) DirectUserset message inside;
+// (b) one rewrite value (the same *Userset pointer) used at two places of one relation. Neither changes what the
+// model means.
+func handBuilt(r *rand.Rand, m *openfgav1.AuthorizationModel) {
+	if r.Intn(20) == 0 {
+		for _, u := range allUsersets(m) {
+			if t, ok := u.GetUserset().(*openfgav1.Userset_This); ok && r.Intn(2) == 0 {
+				t.This = nil
+			}
+		}
+	}
+	if r.Intn(12) != 0 {
+		return
+	}
+	for _, td := range m.GetTypeDefinitions() {
+		for _, root := range td.GetRelations() {
+			// slots: (children slice, index) of every operand position, with its path
+			type slot struct {
+				set  func(*openfgav1.Userset)
+				get  *openfgav1.Userset
+				path string
+			}
+			var slots []slot
+			var walk func(u *openfgav1.Userset, path string)
+			walk = func(u *openfgav1.Userset, path string) {
+				var ch []*openfgav1.Userset
+				switch rw := u.GetUserset().(type) {
+				case *openfgav1.Userset_Union:
+					ch = rw.Union.GetChild()
+				case *openfgav1.Userset_Intersection:
+					ch = rw.Intersection.GetChild()
+				case *openfgav1.Userset_Difference:
+					d := rw.Difference
+					slots = append(slots, slot{func(x *openfgav1.Userset) { d.Base = x }, d.GetBase(), path + "/b"}, slot{func(x *openfgav1.Userset) { d.Subtract = x }, d.GetSubtract(), path + "/s"})
+					if d.GetBase() != nil {
+						walk(d.GetBase(), path+"/b")
+					}
+					if d.GetSubtract() != nil {
+						walk(d.GetSubtract(), path+"/s")
+					}
+					return
+				}
+				for i, c := range ch {
+					i, c, ch := i, c, ch
+					p := fmt.Sprintf("%s/%d", path, i)
+					slots = append(slots, slot{func(x *openfgav1.Userset) { ch[i] = x }, c, p})
+					if c != nil {
+						walk(c, p)
+					}
+				}
+			}
+			if root == nil {
+				continue
+			}
+			walk(root, "")
+			if len(slots) < 3 {
+				continue
+			}
+			a, b := slots[r.Intn(len(slots))], slots[r.Intn(len(slots))]
+			if a.get == nil || a.path == b.path || strings.HasPrefix(a.path, b.path+"/") || strings.HasPrefix(b.path, a.path+"/") {
+				continue
+			}
+			if a.get.GetThis() != nil || a.get.GetTupleToUserset() != nil {
+				continue // DESIGN 7-b: `this` and identical tuple-to-usersets stay unique per operator
+			}
+			if _, isThis := a.get.GetUserset().(*openfgav1.Userset_This); isThis {
+				continue
+			}
+			// siblings under one operator must not end up with two identical TTUs / `this`: a is neither
+			b.set(a.get)
+			return
+		}
+	}
 }
 
 func (g *mgen) restrictions(terms, objs, relNames []string) []*openfgav1.RelationReference {
@@ -571,4 +649,46 @@ func PPModel(m *openfgav1.AuthorizationModel) string {
 		}
 	}
 	return sb.String()
+}
+
+// CloneExact is proto.Clone that keeps the one Go-level trait Clone normalises away and the library can tell apart:
+// a direct assignment written as the bare oneof wrapper (nil DirectUserset) stays bare in the copy.
+func CloneExact(m *openfgav1.AuthorizationModel) *openfgav1.AuthorizationModel {
+	c := proto.Clone(m).(*openfgav1.AuthorizationModel)
+	var walk func(a, b *openfgav1.Userset)
+	walk = func(a, b *openfgav1.Userset) {
+		if a == nil || b == nil {
+			return
+		}
+		switch ra := a.GetUserset().(type) {
+		case *openfgav1.Userset_This:
+			if rb, ok := b.GetUserset().(*openfgav1.Userset_This); ok && ra.This == nil {
+				rb.This = nil
+			}
+		case *openfgav1.Userset_Union:
+			for i, k := range ra.Union.GetChild() {
+				if i < len(b.GetUnion().GetChild()) {
+					walk(k, b.GetUnion().GetChild()[i])
+				}
+			}
+		case *openfgav1.Userset_Intersection:
+			for i, k := range ra.Intersection.GetChild() {
+				if i < len(b.GetIntersection().GetChild()) {
+					walk(k, b.GetIntersection().GetChild()[i])
+				}
+			}
+		case *openfgav1.Userset_Difference:
+			walk(ra.Difference.GetBase(), b.GetDifference().GetBase())
+			walk(ra.Difference.GetSubtract(), b.GetDifference().GetSubtract())
+		}
+	}
+	for i, td := range m.GetTypeDefinitions() {
+		if i >= len(c.GetTypeDefinitions()) || td == nil || c.TypeDefinitions[i] == nil {
+			continue
+		}
+		for rn, u := range td.GetRelations() {
+			walk(u, c.TypeDefinitions[i].GetRelations()[rn])
+		}
+	}
+	return c
 }
